@@ -82,7 +82,7 @@ def plan(pid, tier):
         "C09": dict(mc=[inst_kernels(1, trace=True, lines="RunOnly"), inst_kernels(1, trace=True, lines="RunOnly", kernels="MatrixKernels")], drivers=[("progs", 200 if q else 3000, ["trace", "input"]), ("progs", 120 if q else 2000, ["trace", "breaks"]), ("cycles", 6 if q else 60, []), ("breakcont", 40 if q else 1500, [])]),
         "C10": dict(mc=[inst_c01(5 if q else 6)], drivers=[("runfresh", 120 if q else 6000, []), ("cycles", 9 if q else 90, [])]),
         "C11": dict(mc=[inst_kernels(3 if q else 4, lines="EditLines")], drivers=[("editprobe", 150 if q else 6000, []), ("cycles", 2 if q else 8, [])]),
-        "C16": dict(mc=[inst_kernels(1, lines="RunOnly", kernels="CapKernels"), inst_kernels(1, lines="RunOnly", kernels="ScaleKernels"), inst_c01(4 if q else 6), inst_immloops(4 if q else 6),
+        "C16": dict(mc=[inst_kernels(1, lines="RunOnly"), inst_kernels(1, lines="RunOnly", kernels="CapKernels"), inst_kernels(1, lines="RunOnly", kernels="ScaleKernels"), inst_c01(4 if q else 6), inst_immloops(4 if q else 6),
                         inst_kernels(3, lines="CapProbeLines", kernels="CapBreakKernels")],
                     drivers=[("boundary", 1, []), ("fuzz", 200 if q else 20000, []), ("progs", 40 if q else 1500, [])]),
         "C17": dict(mc=[inst_kernels(2 if q else 3, trace=True, warn=True, lines="BreakLines"), inst_kernels(2 if q else 3, trace=True, warn=True, lines="RunCont", kernels="MatrixKernels"),
